@@ -3,8 +3,10 @@ Model of the node clock actor (`datacake-node/src/clock.rs: run_clock`): one `HL
 by one task that handles `Get` and `Register` events from a FIFO queue, one at a time.
 
 `Get` runs `send`; `Register(ts)` runs `recv` and ignores a refusal.  Since fix D19 an exhausted
-counter no longer stops the actor (`Get`) or drops the registration (`Register`): the clock carries
-on with the next instant (`next_instant`: 4 ms later, counter 0).  A `send` that still fails makes
+counter no longer drops the registration (`Register`): the clock carries on with the next instant
+(`next_instant`: 4 ms later, counter 0); since fix D34 a `Get` whose `send` fails - exhausted counter,
+or a wall clock that stepped back by more than the drift - is answered with the stamp following the
+clock (`following`).  Only a clock at the very end of the representable time (the year 2159) makes
 the actor panic (`expect`): the state `none`.
 
 No imports beyond the timestamp model: linked into `dcdriver`.
@@ -22,8 +24,21 @@ inductive Req where
   | register (wall r : Nat)
   deriving Repr
 
-/-- `Get`: new actor state (`none`: panicked) and the reply. -/
+/-- `following(ts)`: the stamp after `ts` in the clock's own sequence - the next counter value of its
+instant, or the first stamp of the next instant once every counter value is used. -/
+def following (c : Nat) : Option Nat :=
+  if counter c < 65535 then new? (dts c) (counter c + 1) (node c) else nextInstant c (node c)
+
+/-- `Get`: new actor state (`none`: panicked) and the reply.  Since fix D34 a `send` that fails for
+whatever reason (counter exhausted, wall clock stepped back by more than the drift, wall clock beyond
+the representable range) is answered with the stamp that follows the clock. -/
 def onGet (c wall : Nat) : Option Nat :=
+  match send c wall with
+  | .ok c' => some c'
+  | .error _ => following c
+
+/-- The `Get` arm between the fixes D19 and D34: only an exhausted counter was handled. -/
+def onGetD19 (c wall : Nat) : Option Nat :=
   match send c wall with
   | .ok c' => some c'
   | .error .overflow =>
